@@ -287,6 +287,7 @@ func runC03(rc *RunCtx) {
 			rc.Cov.Cell("C03_singleton_lengths", fmt.Sprintf("%s@%d", maskName(mask), l))
 		}
 	}
+	ProbeHistory(rc, rc.Pick(200, 800), false)
 	// hostile history on top
 	for h := 0; h < rc.Pick(1, 3); h++ {
 		e, err := NewHistoryEngine(rc, GenOpts{}, false, false)
